@@ -308,33 +308,57 @@ SPEC = {
     "finding_key": finding_key,
     "shrink": shrink,
     "search": search,
-    "level_text": "Proof about the model of get_type_layout / offsets_match / check_layout (op programs re-extracted from the "
-                  "source each run): for every element type of the grid, of any size and nesting depth, accepted => the two "
-                  "reference calculators give the same total size and the same byte offset for every field recursively; "
-                  "rejected => the reported sizes are the reference sizes; agreeing types are never rejected; no panic site "
-                  "fires while the sizes fit u32. The model is compared with the real compile() on generated programs and the "
-                  "property's own oracle (independent Rust calculators) is run on the real verdicts.",
-    "rule": "requests = (use kind, list of element types); each is turned into an RSSL program, compiled by the real "
-            "compile(...validate_layout_consistency(true)) and the verdict + sizes in the message are compared with the "
-            "model and judged by two independent reference layout calculators (accepted => same size and same offset of "
-            "every field recursively; rejected => reported sizes are the reference sizes). Exhaustive: every leaf type, "
-            "every flat struct of 1-2 members over 21 leaf types (3 members: sampled in quick, exhaustive in thorough), "
-            "depth-2 shapes over a reduced alphabet; random: structs to depth 3 with 1-6 members, arrays 1-4 (also "
-            "nested arrays), nested structs, enums, 8 use kinds, 1-3 types per program. non-trivial = at least two members",
+    "level_text": "Proof about the model of check_layout (collection loops + get_type_layout / offsets_match / final loop; op "
+                  "programs, matched object kinds and intrinsics re-extracted from the source each run): for every module, every "
+                  "structure used as the element type of a global (RW)StructuredBuffer or of an instantiated typed "
+                  "ByteAddressBuffer / BufferAddress load or store is collected, and accepted => the two reference calculators give "
+                  "the same total size and the same byte offset for every field recursively; rejected => the reported sizes and "
+                  "alignments are the reference ones; over the full type universe (bool, vectors 1-4, matrices of every shape and "
+                  "majorness, enums, multi-dimensional arrays, any nesting depth) types without a layout are never accepted; "
+                  "agreeing bool/matrix-free types are never rejected (completeness is partial: bool / matrix types are always "
+                  "'unknown size'); no panic site fires while sizes fit u32. Three holes are proved as negation witnesses and "
+                  "reproduced on the real compiler (known findings): arrays of structured buffers and buffers inside a global struct "
+                  "are not collected, empty structs get size 0 in Metal mode. The model is compared with the real compile() on "
+                  "generated whole programs and the property's own oracle (independent Rust calculators, themselves compared with "
+                  "the Lean reference on every run) judges the real verdicts and diagnostics.",
+    "rule": "two request kinds. C19.check = (use kind, list of element types) as before. C19.prog = (target vk|dx|msl, pipeline "
+            "mode or not, spelling seed, type table, list of use sites): turned into an RSSL program (17 kinds of global "
+            "declaration incl. arrays / typedefs / const / register / bindless / buffer in a struct / parameter / "
+            "ConstantBuffer / cbuffer / plain variables; 10 typed Load<T>/Store<T> forms x 7 wrappers: main, uncalled function, "
+            "instantiated and uninstantiated function template, struct method, buffer parameter, element of a buffer array), "
+            "compiled by the real compile(...validate_layout_consistency(true)); verdict, blamed location and the four numbers "
+            "of the message are compared with the model and judged by two independent reference layout calculators (accepted => "
+            "every structure at a site the property names has the same size and the same offset of every field recursively; "
+            "rejected => the reported sizes and alignments are the reference ones of the blamed structure). Exhaustive: every "
+            "site kind x target x mode with a differing structure; every leaf type of the widened universe in 3-5 shapes; every "
+            "flat struct of 1-2 members over 21 leaf types (3 members: sampled / exhaustive in thorough); random: structs to "
+            "depth 3 (chains to depth 7), 0-6 members, arrays 1-4 in up to 3 dimensions, programs with 1-3 types and 1-5 sites, "
+            "half of them with all structures agreeing but one. non-trivial = some type has at least two members",
     "trusted_base": [
         "Lean 4.33 kernel; axioms propext / Classical.choice / Quot.sound only (audited by #print axioms)",
-        "tools/gens/c19.py (LayoutTables: ScalarType::get_size, the arms of get_type_layout and of offsets_match as op "
-        "programs over a fixed statement vocabulary, check_layout's top-level adjustments, comparison and checked use sites) — re-run on /repo's "
-        "working tree every time; a statement outside the vocabulary is a broken obligation",
-        "Model/Layout.lean: interpreter of the op programs + the recursion skeleton of get_type_layout; tied to the code by "
-        "the correspondence run",
-        "Spec/Layout.lean and the Rust reference calculators in harness/src/c19.rs: our reading of HLSL structured-buffer "
-        "packing and of the Metal struct layout rules (MSL spec 2.2-2.4)",
+        "tools/gens/c19.py: LayoutTables (ScalarType::get_size, the arms of get_type_layout and of offsets_match as op programs "
+        "over a fixed statement vocabulary, check_layout's top-level adjustments, comparison, matched objects and intrinsics) and "
+        "LayoutSites (ObjectType variants, get_structured_type users, the T-templated object methods of intrinsic_data.rs, the "
+        "fixed text of the two collection loops, of get_type_location, of compile()'s validation statement and of the two "
+        "diagnostics) - re-run on /repo's working tree every time; any other text is a broken obligation",
+        "Model/Layout.lean + Model/LayoutCollect.lean: interpreter of the op programs, the recursion skeletons and the two "
+        "collection loops; Driver/C19.lean::moduleOf: how the type checker turns the generated programs into globals and "
+        "intrinsic instantiations (order, type ids) - all tied to the code by the correspondence run only",
+        "Spec/Layout.lean, Spec/LayoutFull.lean and the Rust reference calculators in harness/src/c19.rs: our reading of HLSL "
+        "structured-buffer packing and of the Metal layout rules (MSL spec 2.2-2.4; bool 4 vs 1 byte; matrix = columns of "
+        "vectors as emitted by the MSL exporter; empty struct 0 vs 1 byte); the Lean and Rust versions are compared on 1545 "
+        "types every run",
     ],
     "assumptions": [
         "u32 arithmetic is modelled with overflow checks as in the harness build (overflow-checks = true); a release build wraps instead of panicking",
-        "TypeLayer::Modifier is transparent and is not modelled; the list of element types is the one check_layout collects "
-        "(globals in declaration order, then typed loads/stores in instantiation order — confirmed by the correspondence run)",
-        "Metal has no double; the Metal reference treats double like any other scalar (size = alignment = 8)",
+        "TypeLayer::Modifier below the element type is transparent and is not modelled; a type id denotes one type "
+        "(hypothesis `Consistent` of check_layout_sound: the type registry interns types)",
+        "the property's 'structure used as the element type of a structured buffer' is read as: of a buffer that exists, i.e. "
+        "a global (possibly an array element or a struct member) - a function parameter of buffer type that nothing is "
+        "passed to is not judged; ConstantBuffer<T>, cbuffer members and TriangleStream<T> are not named by the property",
+        "static struct members are laid out like ordinary members because the compiler treats and emits them as such on both targets",
+        "Metal has no double; the Metal reference treats double like any other scalar (size = alignment = 8); programs "
+        "whose compilation fails after an accepting layout check are not judged (the property's premise is false); the "
+        "MetalBytecode target needs the Metal compiler and is not exercised",
     ],
 }
